@@ -238,6 +238,38 @@ fn worker(args: &[String]) -> i32 {
                     "original_detail": v.detail,
                 });
                 let _ = std::fs::write(&path, serde_json::to_string_pretty(&doc).unwrap());
+                // The minimised plan must reproduce in a FRESH process. If it
+                // does not, the violation depends on state that earlier runs
+                // of this worker left behind in the process (a static outside
+                // the provider, say): fall back to a replay of this worker's
+                // whole history up to the violating run, which is exact.
+                let reproduced = std::env::current_exe()
+                    .ok()
+                    .and_then(|exe| {
+                        std::process::Command::new(exe)
+                            .args(["replay", &path])
+                            .stdout(std::process::Stdio::null())
+                            .stderr(std::process::Stdio::null())
+                            .status()
+                            .ok()
+                    })
+                    .and_then(|st| st.code())
+                    == Some(1);
+                if !reproduced {
+                    let doc = json!({
+                        "property": prop,
+                        "profile": profile_name(),
+                        "kind": "history",
+                        "verif_seed": seed,
+                        "tier": tier,
+                        "start_index": start,
+                        "run_index": index,
+                        "violation_class": v.class,
+                        "violation_detail": v.detail,
+                        "note": "the minimised single-run plan did not reproduce in a fresh process: the violation depends on process state left by earlier runs; this file replays runs start_index..=run_index in one process",
+                    });
+                    let _ = std::fs::write(&path, serde_json::to_string_pretty(&doc).unwrap());
+                }
                 violations.push(json!({
                     "class": sh.violation.class, "detail": sh.violation.detail,
                     "replay": path, "index": index,
@@ -279,6 +311,37 @@ fn replay(args: &[String]) -> i32 {
     };
     let _wd = start_watchdog();
     let doc: Value = serde_json::from_str(&text).expect("replay file is JSON");
+    if doc["kind"].as_str() == Some("history") {
+        // re-execute a worker's history of runs in one process
+        let prop = doc["property"].as_str().unwrap_or("C20").to_string();
+        let seed = doc["verif_seed"].as_u64().unwrap_or(1);
+        let thorough = doc["tier"].as_str() == Some("thorough");
+        let start = doc["start_index"].as_u64().unwrap_or(0);
+        let last = doc["run_index"].as_u64().unwrap_or(0);
+        let mut found = None;
+        for index in start..=last {
+            let plan = props::generate(&prop, run_seed(seed, &prop, index), thorough);
+            let rep = props::run_plan(&plan, false);
+            if index == last {
+                for l in &rep.lines {
+                    println!("  {l}");
+                }
+                found = rep.violation;
+            }
+        }
+        return match found {
+            Some(v) => {
+                println!("class: {}", v.class);
+                println!("detail: {}", v.detail);
+                println!("VIOLATION property={prop} replay={path}");
+                1
+            }
+            None => {
+                println!("not reproduced: run {last} after runs {start}.. did not violate {prop}");
+                0
+            }
+        };
+    }
     let plan = plan::plan_from_json(&doc["plan"]);
     if let Some(p) = doc["profile"].as_str() {
         if p != profile_name() {
